@@ -321,4 +321,62 @@ theorem NCa_checkVar (t : Tables) (d : ADecl) : NCa (checkVar t d) := by
   unfold checkVar
   repeat nca_step
 
+/-! ### `fortran_generic` entries -/
+
+theorem NCa_checkGenericArgs (t : Tables) (pats : List Str) : ∀ ds, NCa (checkGenericArgs t pats ds) := by
+  intro ds
+  induction ds with
+  | nil => apply NCa_of_ne; intro e; simp [checkGenericArgs]
+  | cons d ds ih =>
+    have h1 := NCa_ne (NCa_checkArg t pats d true)
+    have h2 := NCa_ne ih
+    unfold checkGenericArgs
+    apply NCa_of_ne
+    intro e
+    split
+    · simp
+    · rename_i e' h; exact absurd h (h1 e')
+    · split
+      · simp
+      · simp
+      · rename_i e' h; exact absurd h (h2 e')
+
+theorem NCa_checkGeneric (t : Tables) (pats : List Str) (g : List ADecl) : NCa (checkGeneric t pats g) := by
+  have h1 := NCa_ne (NCa_checkGenericArgs t pats g)
+  have h2 := NCa_ne (NCa_checkImpliedAll (g.map (·.name)) g)
+  unfold checkGeneric
+  apply NCa_of_ne
+  intro e
+  split
+  · simp
+  · rename_i e' h; exact absurd h (h1 e')
+  · split
+    · simp
+    · simp
+    · rename_i e' h; exact absurd h (h2 e')
+
+theorem NCa_checkGenerics (t : Tables) (pats : List Str) : ∀ gs, NCa (checkGenerics t pats gs) := by
+  intro gs
+  induction gs with
+  | nil => apply NCa_of_ne; intro e; simp [checkGenerics]
+  | cons g gs ih =>
+    have h1 := NCa_ne (NCa_checkGeneric t pats g)
+    have h2 := NCa_ne ih
+    unfold checkGenerics
+    apply NCa_of_ne
+    intro e
+    split
+    · simp
+    · rename_i e' h; exact absurd h (h1 e')
+    · split
+      · simp
+      · simp
+      · rename_i e' h; exact absurd h (h2 e')
+
+theorem NCa_checkFcnG (t : Tables) (pats : List Str) (gens : List (List ADecl)) (d : ADecl) :
+    NCa (checkFcnG t pats gens d) := by
+  obtain ⟨ptrs, arr, c, htm, tn, tb, sg, fp, ini, nt, ttm, nm, attrs, params⟩ := d
+  unfold checkFcnG
+  repeat (first | apply NCa_checkCommon | apply NCa_checkArgs | apply NCa_checkGenerics | nca_step)
+
 end Shroud.Attrs
